@@ -1,4 +1,5 @@
 import math
+import os
 from abc import ABC, abstractmethod
 from dataclasses import dataclass
 from functools import partial
@@ -11,6 +12,23 @@ from jax import jit, lax, random, vmap
 
 from ad_afqmc import linalg_utils, sr, wavefunctions
 from ad_afqmc.wavefunctions import wave_function
+
+# Verification hooks (observation only). Active only if ANKIT76_AD_AFQMC_VERIF=1 *and* the caller
+# pre-seeded the corresponding prop_data keys; otherwise the traced program is unchanged.
+_VERIF_HOOKS = os.environ.get("ANKIT76_AD_AFQMC_VERIF", "0") == "1"
+
+
+def _verif_record_incoherence(trial, prop_data, wave_data):
+    """max_w |stored overlap - recomputed overlap| / |stored overlap| over alive walkers, folded into
+    prop_data["verif_incoherence"] (only if that key was pre-seeded)."""
+    if _VERIF_HOOKS and "verif_incoherence" in prop_data:
+        recomputed = trial.calc_overlap(prop_data["walkers"], wave_data)
+        rel = jnp.abs(prop_data["overlaps"] - recomputed) / jnp.abs(prop_data["overlaps"])
+        alive = (prop_data["weights"] != 0.0) & jnp.isfinite(rel)
+        prop_data["verif_incoherence"] = jnp.maximum(
+            prop_data["verif_incoherence"], jnp.max(jnp.where(alive, rel, 0.0))
+        )
+    return prop_data
 
 
 @dataclass
@@ -118,6 +136,7 @@ class propagator(ABC):
         Returns:
             prop_data: dictionary containing the updated propagation data
         """
+        prop_data = _verif_record_incoherence(trial, prop_data, wave_data)
         force_bias = trial.calc_force_bias(prop_data["walkers"], ham_data, wave_data)
         field_shifts = -jnp.sqrt(self.dt) * (1.0j * force_bias - ham_data["mf_shifts"])
         shifted_fields = fields - field_shifts
@@ -145,6 +164,9 @@ class propagator(ABC):
             * overlaps_new
             / prop_data["overlaps"]
         )
+        if _VERIF_HOOKS and "verif_imp_fun" in prop_data:
+            prop_data["verif_imp_fun"] = imp_fun + 0.0j
+            prop_data["verif_theta"] = theta + 0.0
         imp_fun_phaseless = jnp.abs(imp_fun) * jnp.cos(theta)
         imp_fun_phaseless = jnp.array(
             jnp.where(jnp.isnan(imp_fun_phaseless), 0.0, imp_fun_phaseless)
@@ -578,6 +600,7 @@ class propagator_cpmc(propagator_unrestricted):
         Returns:
             prop_data: dictionary containing the updated propagation data
         """
+        prop_data = _verif_record_incoherence(trial, prop_data, wave_data)
         # one body
         prop_data = self.propagate_one_body(trial, ham_data, prop_data, wave_data)
 
@@ -677,6 +700,7 @@ class propagator_cpmc_slow(propagator_cpmc, propagator_unrestricted):
         Returns:
             prop_data: dictionary containing the updated propagation data
         """
+        prop_data = _verif_record_incoherence(trial, prop_data, wave_data)
         # one body
         prop_data["walkers"][0] = jnp.einsum(
             "ij,wjk->wik", ham_data["exp_h1"][0], prop_data["walkers"][0]
@@ -788,6 +812,7 @@ class propagator_cpmc_slow(propagator_cpmc, propagator_unrestricted):
         Returns:
             prop_data: dictionary containing the updated propagation data
         """
+        prop_data = _verif_record_incoherence(trial, prop_data, wave_data)
         # one body
         prop_data["walkers"][0] = jnp.einsum(
             "ij,wjk->wik", ham_data["exp_h1"][0], prop_data["walkers"][0]
@@ -933,6 +958,7 @@ class propagator_cpmc_nn(propagator_cpmc, propagator_unrestricted):
         Returns:
             prop_data: dictionary containing the updated propagation data
         """
+        prop_data = _verif_record_incoherence(trial, prop_data, wave_data)
         # one body
         prop_data = self.propagate_one_body(trial, ham_data, prop_data, wave_data)
 
@@ -1276,6 +1302,7 @@ class propagator_cpmc_nn_slow(propagator_unrestricted):
         Returns:
             prop_data: dictionary containing the updated propagation data
         """
+        prop_data = _verif_record_incoherence(trial, prop_data, wave_data)
         # one body
         prop_data["walkers"][0] = jnp.einsum(
             "ij,wjk->wik", ham_data["exp_h1"][0], prop_data["walkers"][0]
@@ -1611,6 +1638,7 @@ class propagator_cpmc_continuous(propagator_unrestricted):
         Returns:
             prop_data: dictionary containing the updated propagation data
         """
+        prop_data = _verif_record_incoherence(trial, prop_data, wave_data)
         # one body
         prop_data["walkers"][0] = jnp.einsum(
             "ij,wjk->wik", ham_data["exp_h1"][0], prop_data["walkers"][0]
